@@ -4,7 +4,7 @@ import ast
 from ..core import sym
 from ..core.expand import u, call_name, get_arg, bind_args, Expander, is_marker, phi_alternatives
 from ..core.loader import Inconclusive, const_value, parents
-from .common import (element_of, canon_calls, guard_dnf, returns, all_nodes, callee, strip_shape, calls_in, guards_of, stmt_of, kw, find_assignments, in_loop)
+from .common import (element_of, canon_calls, guard_dnf, returns, all_nodes, callee, strip_shape, calls_in, guards_of, stmt_of, kw, find_assignments, in_loop, loops_around)
 
 EXPLANATION = (
     "Decided: D1 ownership tests (_find_location, _create_tile) are conjunctions lon >= west, lat >= south, lon < east, "
@@ -316,6 +316,23 @@ def rule_bounds(ck):
         if u(el).replace(' ', '') == 'geographical_area_from_bounds(__elem__(self.bounds)[0],__elem__(self.bounds)[1],__elem__(self.bounds)[2],__elem__(self.bounds)[3])':
             good = True
     (o.ok() if good else o.fail('cell areas are not computed from the four bounds of each cell in order'))
+    # the areas handed out are those computed in this call: the computation is not skipped when areas were stored before (the array that
+    # was handed out earlier may have been normalised in place by its receiver - `w = grid.get_cell_area(); w /= w.sum()`)
+    o = ck.ob('C17-D4.areafresh', g, 'areas are computed at every call', g.node)
+    rets = [x for x in returns(g) if x.value is not None]
+    cfg = g.cfg
+    comp = []
+    for c_ in all_nodes(g):
+        if isinstance(c_, ast.Call) and (callee(P, g, c_) or '').endswith('geographical_area_from_bounds'):
+            top = stmt_of(c_)
+            # a computation written as a loop: the loop statement is what has to be passed on the way to the return
+            for lp in loops_around(top):
+                top = lp
+            comp.append(top)
+    bad = [x for x in rets if not any(cfg.node_of(a_) is not None and cfg.stmt_node_containing(x.value) is not None and
+                                      cfg.dominates(cfg.node_of(a_), cfg.stmt_node_containing(x.value)) for a_ in comp)]
+    (o.fail('a return of get_cell_area is not preceded by the computation on every path: the stored array is handed out again as it is') if (bad or not comp)
+     else o.ok('the computation dominates every return'))
     b = P.func(Q + 'get_bbox')
     r = [x for x in returns(b) if x.value is not None]
     o = ck.ob('C17-D4.bbox', b, r[0].value if r else 'bbox', r[0] if r else b.node)
@@ -362,4 +379,12 @@ def rule_bounds(ck):
     (o.ok() if ok else o.fail('get_index_of does not call _find_location(lon_i, lat_i) for every point in order'))
 
 
-RULES = [rule_ownership, rule_children, rule_split, rule_bounds]
+def rule_precision(ck):
+    """C17-D4.double: coordinates, bounds and edges stay in the precision they were supplied in - no conversion to a narrower numeric type
+    (a bound rounded to float32 moves by up to 4e-6 degrees, so points next to it change owner)"""
+    from .common import rule_double_precision
+    ck.clause('D4')
+    rule_double_precision(ck, 'C17-D4.double', modules=('csep.core.regions',), what='tile bounds and coordinates')
+
+
+RULES = [rule_ownership, rule_children, rule_split, rule_bounds, rule_precision]
